@@ -113,6 +113,15 @@ CLAIMED = {
     note="Constant (n_e, T_e-independent) rates at physical magnitude (k x 1e-14 m^3/s, n_e = 3e19): with O(1) rates lsq_linear is hopelessly scaled (observed, not asserted); equilibrium-mapped wrappers not exercised.",
     technique="TLA+ exact rational balance table enumerated by TLC, every entry point x representation compared per instance",
     design="4.9"),
+ "C10": dict(
+    text="RayTransfer.tla is the midpoint marching loop as a state machine (one TLA+ step per sample) on integer lattices: Cartesian cells by exact floors, cylindrical cells by squared radii and "
+         "sign/magnitude sector tests, periodic toroidal index, three voxel maps (identity, mask with consecutive renumbering, merged cells with holes), samples on a cell face counted as ambiguous. "
+         "TLC explores every lattice segment x sample count, checks sample accounting, merged = sum of cells, unmapped cells contribute nothing and, for Cartesian cells, |count - n x exact chord fraction| <= 2 "
+         "with exact slab intersection over rationals. Each behaviour is replayed through the real Cartesian/CylindricalRayTransferIntegrator.integrate (four cylindrical grid shapes incl. single Z layer and "
+         "axisymmetric) and the entries compared; end-to-end Ray.trace through RayTransferBox / RayTransferCylinder checks the chord total and the angular period.",
+    note="Lattice end points inside small fixed grids; exact chord comparison for Cartesian identity map only; non-lattice rays only through the two end-to-end traces.",
+    technique="TLA+ per-sample marching state machine with exact integer geometry, TLC behaviours replayed through the integrators",
+    design="4.10"),
 }
 
 NOT_YET = {}
